@@ -46,6 +46,13 @@ def parseOp (env : Env) (line : String) : Option (Option Op × String) :=
       let h ← hs.toNat?; let s ← parseSel? sel; let k ← parseKey? a b c d
       pure (some (.new h s (op == "fnew") k), "")
     else none
+  | ["bh", hs, a, b, c, d] => do
+    -- `HighwayBuildHasher::new(key).build_hasher()` is `HighwayHasher::new(key)` (src/hash.rs)
+    let h ← hs.toNat?; let k ← parseKey? a b c d
+    pure (some (.new h .auto false k), "")
+  | ["bhd", hs] => do
+    let h ← hs.toNat?
+    pure (some (.new h .auto false V4.zero), "")
   | ["default", hs, sel] => do
     let h ← hs.toNat?; let s ← parseSel? sel
     pure (some (.default h s), "")
